@@ -75,6 +75,21 @@ impl TryFrom<&[AST]> for Context {
 /// Class lookup follows parents recursively, so a cycle would never terminate.
 fn check_inheritance_acyclic(classes: &HashSet<GenericClass>) -> TypeResult<()> {
     for class in classes {
+        // a type parameter as parent becomes whatever it is substituted with, also the class itself
+        let params = class.name.generics.iter().flat_map(|g| g.names.iter());
+        let params: HashSet<&str> = params.map(|n| n.variant.name.as_str()).collect();
+        if let Some(parent) = class
+            .parents
+            .iter()
+            .find(|p| params.contains(p.name.variant.name.as_str()))
+        {
+            let msg = format!(
+                "{} cannot inherit from its type parameter {}",
+                class.name, parent.name
+            );
+            return Err(vec![TypeErr::new(class.pos, &msg)]);
+        }
+
         let mut seen: HashSet<&str> = HashSet::new();
         let mut ancestors: Vec<&GenericClass> = vec![class];
         while let Some(ancestor) = ancestors.pop() {
